@@ -30,6 +30,12 @@ func NewRawHTTPResponder(writer io.Writer) *RawHTTPResponder {
 	}
 }
 
+// Tells the responder which request it answers. The answer to a HEAD is a head only, whoever
+// produces it: also an error page of the proxy's own must not put body bytes on the connection.
+func (c *RawHTTPResponder) SetRequest(req *http.Request) {
+	c.response.Request = req
+}
+
 func (c *RawHTTPResponder) parseAndSetContentLength() error {
 	header := c.response.Header
 
